@@ -7,7 +7,8 @@ in : {"pre":[view…], "stmts":[stmt…], "deny":[[ctx,perm],…], "excsro":[[ki
      view = {"tag","name","route","cls","isexc","exconly","perm":P,"order","preds","wrapper":null|n,"act"[,"vdown":[P],"vdbase":[P]]}
      P = null | "npr" | n
 out: {"trace":[["p",ctx,perm,ans] | ["b",tag,ctx] | ["x",kind]], "out":["resp",tag]|["none"]|["raised",k]|["perm",b]|["mismatch"],
-      "guards":[[tag,exc,guard|null],…], "exec":[phase…], "chain":[names]} -/
+      "guards":[[tag,exc,guard|null],…], "exec":[phase…], "sorted":null|[names] (sorter model on "derivers"), "chain":[names]}
+   optional input: "chain":[names outermost first] (the live sorter's order), "derivers":[{"name","under":null|[…],"over":null|[…]}] -/
 open Pyr Pyr.Security Lean
 
 def parsePerm (j : Json) : Except String PermArg :=
@@ -38,8 +39,11 @@ def parseView (j : Json) : Except String ViewStmt := do
     | _ => pure none : Except String (Option PermArg))
   let vdOwn ← vd "vdown"
   let vdBase ← vd "vdbase"
+  let deco : Bool := match j.getObjVal? "deco" with
+    | .ok (.bool b) => b
+    | _ => false
   pure { tag, name, route, ctxClass := cls, isExcCtx := isexc, excOnly := exconly, perm, order, preds, wrapper, act,
-         vdOwn, vdBase }
+         deco, vdOwn, vdBase }
 
 def parseStmt (j : Json) : Except String Stmt := do
   let k : String ← getAs j "k"
@@ -63,6 +67,7 @@ def evJson : Event → Json
   | .permits c p a => toJson [toJson "p", toJson c, toJson p, toJson a]
   | .body t _ c _ => toJson [toJson "b", toJson t, toJson c]
   | .mainRaised k => toJson [toJson "x", toJson k]
+  | .deco t c _ => toJson [toJson "d", toJson t, toJson c]
 
 def outJson : Outcome → Json
   | .resp t => toJson [toJson "resp", toJson t]
@@ -70,6 +75,17 @@ def outJson : Outcome → Json
   | .mismatch => toJson [toJson "mismatch"]
   | .raised k => toJson [toJson "raised", toJson k]
   | .perm b => toJson [toJson "perm", toJson b]
+
+def parseStrs (j : Json) : Except String (Option (List String)) :=
+  match j with
+  | .null => pure none
+  | x => do let l : List String ← fromJson? x; pure (some l)
+
+def parseDeriverOp (j : Json) : Except String DeriverOp := do
+  let name : String ← getAs j "name"
+  let under ← parseStrs (← getField j "under")
+  let over ← parseStrs (← getField j "over")
+  pure { name, under, over }
 
 def main : IO Unit := jsonDriver fun j => do
   let prej : List Json ← getAs j "pre"
@@ -89,6 +105,18 @@ def main : IO Unit := jsonDriver fun j => do
   -- the framework's own exception-response view is committed before the user's scope (setup_registry)
   let r0 := configure {} (pre.map fun v => Stmt.addView 0 v)
   let reg := configure r0 stmts
+  -- the deriver chain of THIS application: the names the live sorter returned (input), the two outer wrappers in
+  -- front; the sorter model's prediction for the same additions is printed next to it
+  let opsj : List Json := match j.getObjVal? "derivers" with
+    | .ok (.arr a) => a.toList
+    | _ => []
+  let ops ← opsj.mapM parseDeriverOp
+  let chainIn : Option (List String) := match j.getObjVal? "chain" with
+    | .ok x => (fromJson? x : Except String (List String)).toOption
+    | _ => none
+  let chain : List Layer := match chainIn with
+    | some l => l.map layerOf
+    | none => chain
   let res ← match kind with
     | "router" => pure (handle chain reg.views w q)
     | "render" => do
@@ -102,4 +130,5 @@ def main : IO Unit := jsonDriver fun j => do
     ("guards", toJson (reg.views.map fun d => toJson [toJson d.tag, toJson d.exc, toJson d.guard])),
     ("exec", toJson ((execOrder stmts).map (·.phase))),
     ("policy", toJson reg.policy),
+    ("sorted", toJson (sortedDerivers ops)),
     ("chain", toJson chainNames)]
